@@ -284,10 +284,39 @@ func (c *Ctx) Eq(a, b *Term) *Term {
 			return c.Not(a)
 		}
 	}
+	if a.Sort.K == KBV {
+		// x + k1 = x + k2 is decided by the constants (wrapping addition is a bijection)
+		ba, ka := addBase(a)
+		bb, kb := addBase(b)
+		if ba == bb {
+			return c.BoolC((ka-kb)&mask(a.Sort.W) == 0)
+		}
+	}
 	if a.ID > b.ID {
 		a, b = b, a
 	}
 	return c.mk(OpEq, Bool, 0, "", []*Term{a, b})
+}
+
+// addBase splits t into base + constant (constants of nested additions summed).
+func addBase(t *Term) (*Term, uint64) {
+	var k uint64
+	for t.Op == OpAdd && len(t.Args) == 2 {
+		switch {
+		case t.Args[1].Op == OpConst:
+			k += t.Args[1].C
+			t = t.Args[0]
+		case t.Args[0].Op == OpConst:
+			k += t.Args[0].C
+			t = t.Args[1]
+		default:
+			return t, k
+		}
+	}
+	if t.Op == OpConst {
+		return nil, k + t.C
+	}
+	return t, k
 }
 
 // ---- bit-vectors ----
